@@ -260,10 +260,11 @@ Fixpoint run (n : node) (p : path) (s : istate) (qv qp : list diag) {struct n} :
 
 Definition run_kids := kids_with run.
 
-(* lintVCL + the lintUnused* passes of Linter.Lint *)
+(* lintVCL + the lintUnused* passes of Linter.Lint.  Lint resets the ignore state before the lintUnused* passes
+   (a range left open at the end of the file ends there), so everything still queued is reported. *)
 Definition report (t : list node) : list diag :=
   let '(s, qv, qp, o) := run_kids t [] 0 init [] [] in
-  o ++ flush_queue qv s ++ flush_queue qp s.
+  o ++ qv ++ qp.
 
 (* ------------------------------------------------------------------ VCL-shaped trees *)
 
